@@ -81,7 +81,7 @@ def generate(rng, tier):
         r = rng.random()
         ast = U.gen_ast(rng, size="small" if rng.random() < 0.6 else "big", stress=rng.choice([0.0, 0.3, 0.6, 0.9]),
                         p_const=rng.choice([0.0, 0.15, 0.4]), pardup=0.25 if r < 0.3 else 0.0)
-        if r > 0.88:
+        if r > 0.82:
             ast = malform(rng, ast)
         out.append(mk_case(rng, ast, kind="malformed" if "malformed" in ast else "gen"))
     if tier == "thorough":
